@@ -95,9 +95,50 @@ class StmtMixin:
     def st_Pass(self, s, st):
         return [(st, self.NORMAL, None)]
 
+    def ghost_induct(self, s, st):
+        """induct(var, lo, hi, claim): proof by induction inside ghost code.
+
+        Emits  base: claim[var:=lo]  and  step: lo <= v, v+1 < hi, claim[v] |- claim[v+1]  (v fresh), then
+        assumes  forall v in [lo, hi). claim[v].   `hi <= lo` makes everything vacuous."""
+        call = s.value
+        var = call.args[0].value
+        lo = self.to_int(self.ev(st, call.args[1], True))
+        hi = self.to_int(self.ev(st, call.args[2], True))
+        claim = call.args[3].value
+        label = call.args[4].value if len(call.args) > 4 else f"induct-{var}"
+        saved = st.vars.get(var)
+
+        def at(state, v):
+            state.vars[var] = v
+            try:
+                return self.spec_bool(state, claim)
+            finally:
+                if saved is None:
+                    state.vars.pop(var, None)
+                else:
+                    state.vars[var] = saved
+        b = st.fork()
+        b.assume(lo < hi)
+        self.ob(b, f"L{s.lineno}:{label}:base", "lemma", at(b, lo), s.lineno, f"{claim}  at {var} = lo")
+        v = z3.Int(fresh_name(var))
+        h = st.fork()
+        h.assume(z3.And(v >= lo, v + 1 < hi))
+        h.assume(at(h, v))
+        self.ob(h, f"L{s.lineno}:{label}:step", "lemma", at(h, v + 1), s.lineno, f"{claim}  at {var} -> {var}+1")
+        q = z3.Int(fresh_name(var))
+        st.assume(z3.ForAll([q], z3.Implies(z3.And(q >= lo, q < hi), at(st, q))))
+        return [(st, self.NORMAL, None)]
+
     def st_Expr(self, s, st):
         if isinstance(s.value, ast.Constant):
             return [(st, self.NORMAL, None)]  # docstring
+        if getattr(s, "_is_ghost", False) and isinstance(s.value, ast.Call) and self.callname(s.value.func) == "induct":
+            return self.ghost_induct(s, st)
+        if getattr(s, "_is_ghost", False) and isinstance(s.value, ast.Call) and self.callname(s.value.func) == "assert_":
+            g = self.spec_bool_node(st, s.value.args[0])
+            self.ob(st, f"L{s.lineno}:ghost-assert", "lemma", g, s.lineno, ast.unparse(s.value.args[0]))
+            st.assume(g)
+            return [(st, self.NORMAL, None)]
         if isinstance(s.value, ast.Call):
             nm = self.callname(s.value.func) or ""
             if nm.startswith("logger.") or nm.startswith("logging.") or nm == "print":
@@ -213,6 +254,10 @@ class StmtMixin:
             return
         if isinstance(target, ast.Subscript):
             base = self.ev(st, target.value)
+            if isinstance(base, Vec) and isinstance(target.value, ast.Name):
+                # the result of an elementwise expression is a fresh array: allocate it on first store
+                base = self.materialize(st, base, target.value.id)
+                st.vars[target.value.id] = base
             if isinstance(target.slice, ast.Tuple):
                 idxs = [self.ev_index(st, e, False) for e in target.slice.elts]
             else:
